@@ -78,11 +78,15 @@ impl SimpleOpHeadsStore {
 
     fn add_op_head(&self, id: &OperationId) -> Result<(), PathError> {
         let path = self.dir.join(id.hex());
+        #[cfg(jj_vcs_jj_verif)]
+        crate::verif::point("opheads:add", &path).context(&path)?;
         std::fs::write(&path, "").context(path)
     }
 
     fn remove_op_head(&self, id: &OperationId) -> Result<(), PathError> {
         let path = self.dir.join(id.hex());
+        #[cfg(jj_vcs_jj_verif)]
+        crate::verif::point("opheads:remove", &path).context(&path)?;
         std::fs::remove_file(&path)
             .or_else(|err| {
                 if err.kind() == io::ErrorKind::NotFound {
@@ -136,6 +140,9 @@ impl OpHeadsStore for SimpleOpHeadsStore {
 
     async fn get_op_heads(&self) -> Result<Vec<OperationId>, OpHeadsStoreError> {
         let mut op_heads = vec![];
+        #[cfg(jj_vcs_jj_verif)]
+        crate::verif::point("opheads:list", &self.dir)
+            .map_err(|err| OpHeadsStoreError::Read(err.into()))?;
         for op_head_entry in
             std::fs::read_dir(&self.dir).map_err(|err| OpHeadsStoreError::Read(err.into()))?
         {
